@@ -71,7 +71,7 @@ def rule_stale_tickets(ctx, chk, Q, rid, pid):
     ticket_ty = Q.ticket_field["ty"]
     carries_only_id = ticket_ty.endswith("<orders::base::OrderId>")
     if leavers and by_key_only and carries_only_id:
-        chk.fail(rid, "price_level::order_queue::OrderQueue::remove+pop", leavers[0].span,
+        chk.fail(rid, Q.adt["def"] + "::remove+pop", leavers[0].span,
                  "OrderQueue::remove deletes the map entry but leaves its ticket in the FIFO, and pop accepts any ticket whose id is "
                  "present in the map: an id pushed again after remove (re-add, same-price amend) is served at the OLD ticket's position")
     else:
